@@ -315,6 +315,20 @@ Definition fres_eq (a b : fres) : Prop :=
 Definition fres_eqb (a b : fres) : bool :=
   match a, b with RVal x, RVal y => Qeq_bool x y | RInf, RInf => true | RRaise, RRaise => true | _, _ => false end.
 
+(* ---- which quantities ModelFittingDataTree.__init__ passes to check_fit_ranges as rows / cols /
+   readout_times (regenerated from the two call sites: Gen_C11.src_calls) *)
+Inductive qty :=
+| QTgt (d : dim)        (* the size of the target data read from file along d: len(targets["y"]) ... *)
+| QDet (d : dim)        (* the size of the simulated frame along d: detector geometry / len(readout.times) *)
+| QAbsent.              (* not passed (readout_times of the single-readout call) *)
+Record callsite := { cs_rows : qty; cs_cols : qty; cs_times : qty }.
+Record calls := { call_single : callsite; call_multi : callsite }.
+
+(* the unchanged tree: always the size of the TARGET *)
+Definition coded_calls : calls :=
+  {| call_single := {| cs_rows := QTgt DRow; cs_cols := QTgt DCol; cs_times := QAbsent |};
+     call_multi := {| cs_rows := QTgt DRow; cs_cols := QTgt DCol; cs_times := QTgt DTime |} |}.
+
 (* ---- the problem object *)
 Inductive wspec := WNone | WScalar (ws : list Q) | WFile (fs : list frame3).
 
@@ -370,15 +384,34 @@ Fixpoint shape_eqb (a b : list nat) : bool :=
 
 Definition nth_shape (l : list nat) (i : nat) : Z := Z.of_nat (nth i l 0%nat).
 
+(* sizes along (time, y, x) *)
+Definition dim_ix (d : dim) : nat := match d with DTime => 0%nat | DRow => 1%nat | DCol => 2%nat end.
+Definition shape_dim (sh : list nat) (d : dim) : Z := nth_shape sh (dim_ix d).
+(* the simulated frame of a processor: (len(readout.times), geometry.row, geometry.col) *)
+Definition dshape (sims : list frame3) : list nat := shape3 (hd [] sims).
+
+Definition qty_val (tsh dsh : list nat) (q : qty) : option Z :=
+  match q with
+  | QTgt d => Some (shape_dim tsh d)
+  | QDet d => Some (shape_dim dsh d)
+  | QAbsent => None
+  end.
+
+(* the call of check_fit_ranges made by the constructor *)
+Definition ctor_check (ck : checker) (cl : calls) (c : fconf) (sims : list frame3) : outcome :=
+  let cs := if fc_multi c then call_multi cl else call_single cl in
+  let tsh := tshape c in
+  let dsh := dshape sims in
+  check ck (Some (fc_trng c)) (Some (fc_orng c))
+        (dflt 0 (qty_val tsh dsh (cs_rows cs))) (dflt 0 (qty_val tsh dsh (cs_cols cs)))
+        (qty_val tsh dsh (cs_times cs)).
+
 (* problem = ModelFittingDataTree(...); problem.fitness(x), given the simulated frame of every processor *)
-Definition model_fit (ck : checker) (c : fconf) (sims : list frame3) : fobs :=
+Definition model_fit (ck : checker) (cl : calls) (c : fconf) (sims : list frame3) : fobs :=
   match fc_trng c with
   | FR3 _ _ _ => OCtor          (* readout_times=None -> ValueError, or isel(time=...) on dims (processor, readout_time, y, x) *)
   | FR2 tr tc =>
-      let rows := nth_shape (tshape c) 1 in
-      let cols := nth_shape (tshape c) 2 in
-      let times := if fc_multi c then Some (nth_shape (tshape c) 0) else None in
-      match (if fc_bypass c then Accept else check ck (Some (fc_trng c)) (Some (fc_orng c)) rows cols times) with
+      match (if fc_bypass c then Accept else ctor_check ck cl c sims) with
       | Accept =>
           let w := if fc_multi c then WNone else fc_w c in      (* _configure_weights only on the single-readout path *)
           let tg := map (fun f => map (slice2 tr tc) f) (fc_tgts c) in
@@ -422,14 +455,70 @@ Definition term_declared (c : fconf) (k : nat) (sim tgt : frame3) : fres :=
   | Some wf => apply_ff (fc_ff c) s t wf
   end.
 
+(* What the declared ranges ask for in one dimension, given the size nt of the target data and the
+   size nd of the simulated frame along it (open components are resolved against the array they
+   index).  MustReject: the target range exceeds the target, or the two ranges select regions of
+   different extent.  DontCare: the result range runs past the simulated frame while the region it
+   selects happens to have the target's extent (the declared lengths differ: refusing is fine,
+   accepting is harmless). *)
+Inductive verdict := MustAccept | MustReject | DontCare.
+
+Definition sl_inside (n : Z) (s : sl) : bool :=
+  let '(a, b) := resolve n s in ((0 <=? a) && (a <=? b) && (b <=? n))%Z.
+
+Definition dim_verdict (nt nd : Z) (t o : sl) : verdict :=
+  let '(ts, te) := resolve nt t in
+  let '(os, oe) := resolve nd o in
+  if negb (sl_inside nt t) then MustReject
+  else if (oe <=? nd)%Z then (if (te - ts =? oe - os)%Z then MustAccept else MustReject)
+  else if (te - ts =? Z.min oe nd - Z.min os nd)%Z then DontCare else MustReject.
+
+Definition vand (a b : verdict) : verdict :=
+  match a, b with
+  | MustReject, _ | _, MustReject => MustReject
+  | MustAccept, MustAccept => MustAccept
+  | _, _ => DontCare
+  end.
+
+(* a 2-D target range leaves the time axis of the target whole; a 3-D target range on single-readout
+   (2-D) target data is not judged *)
+Definition fit_verdict (c : fconf) (sims : list frame3) : verdict :=
+  let tsh := tshape c in
+  let dsh := dshape sims in
+  let dv d := dim_verdict (shape_dim tsh d) (shape_dim dsh d) in
+  match fc_trng c, fc_orng c with
+  | FR2 tr tc, FR3 ot orow ocol =>
+      vand (dv DTime (None, None) ot) (vand (dv DRow tr orow) (dv DCol tc ocol))
+  | FR3 tm tr tc, FR3 ot orow ocol =>
+      if fc_multi c then vand (dv DTime tm ot) (vand (dv DRow tr orow) (dv DCol tc ocol)) else DontCare
+  | _, FR2 _ _ => DontCare
+  end.
+
+(* all target files have one shape, all simulated frames have one shape = the declared geometry *)
+Definition uniform (c : fconf) (sims : list frame3) : bool :=
+  forallb (fun t => shape_eqb (shape3 t) (tshape c)) (fc_tgts c)
+  && forallb (fun s => shape_eqb (shape3 s) (dshape sims)) sims
+  && (shape_dim (dshape sims) DRow =? fc_drows c)%Z && (shape_dim (dshape sims) DCol =? fc_dcols c)%Z
+  && negb (existsb (Nat.eqb 0) (tshape c)) && negb (existsb (Nat.eqb 0) (dshape sims)).
+
 Definition spec_fit (c : fconf) (sims : list frame3) : option fobs :=
-  let rows := nth_shape (tshape c) 1 in
-  let cols := nth_shape (tshape c) 2 in
-  let times := if is3d (fc_trng c) then Some (nth_shape (tshape c) 0) else None in
-  if negb (in_domain (fc_trng c) (fc_orng c) rows cols times) then None
-  else if spec_ok (fc_trng c) (fc_orng c) rows cols times
-       then Some (fobs_of (declared_sum (term_declared c) sims (fc_tgts c)))
-       else Some OCtor.
+  let tsh := tshape c in
+  if negb (in_domain (fc_trng c) (fc_orng c) (shape_dim tsh DRow) (shape_dim tsh DCol) (Some (shape_dim tsh DTime))
+           && uniform c sims) then None
+  else match fit_verdict c sims with
+       | MustAccept => Some (fobs_of (declared_sum (term_declared c) sims (fc_tgts c)))
+       | MustReject => Some OCtor
+       | DontCare => None
+       end.
+
+(* the declared target range lies inside the target data (resolved against the target's own size) *)
+Definition target_inside (c : fconf) : bool :=
+  let tsh := tshape c in
+  match fc_trng c with
+  | FR2 tr tc => sl_inside (shape_dim tsh DRow) tr && sl_inside (shape_dim tsh DCol) tc
+  | FR3 tm tr tc => sl_inside (shape_dim tsh DTime) tm && sl_inside (shape_dim tsh DRow) tr
+                    && sl_inside (shape_dim tsh DCol) tc
+  end.
 
 (* observed vs expected: exact, except that one float division (reduced chi squared) may round *)
 Definition q_close (a b : Q) : bool :=
@@ -445,9 +534,10 @@ Definition is_exact (f : fitfun) : bool := match f with FChi _ => false | _ => t
 
 Record fit_case := { ft_c : fconf; ft_sims : list frame3; ft_obs : fobs }.
 
-Definition fit_mismatch (ck : checker) (x : fit_case) : bool :=
-  negb (fobs_agree (is_exact (fc_ff (ft_c x))) (model_fit ck (ft_c x) (ft_sims x)) (ft_obs x)).
-Definition fit_mismatches (ck : checker) (xs : list fit_case) : list Z := indices_where (fit_mismatch ck) xs 0.
+Definition fit_mismatch (ck : checker) (cl : calls) (x : fit_case) : bool :=
+  negb (fobs_agree (is_exact (fc_ff (ft_c x))) (model_fit ck cl (ft_c x) (ft_sims x)) (ft_obs x)).
+Definition fit_mismatches (ck : checker) (cl : calls) (xs : list fit_case) : list Z :=
+  indices_where (fit_mismatch ck cl) xs 0.
 
 Definition fit_violation (x : fit_case) : bool :=
   match spec_fit (ft_c x) (ft_sims x) with
